@@ -313,6 +313,23 @@ impl Sender {
                 } else {
                     Amf0Value::Utf8String(long.clone())
                 };
+                // the limit holds wherever the string sits: nested in arrays and objects too
+                let nest = ctx.ch.weighted("op.arg.nest", &[4, 2, 2, 1, 1]);
+                let wrap_obj = |v: Amf0Value| {
+                    let mut props = std::collections::HashMap::new();
+                    props.insert("inner".to_string(), v);
+                    Amf0Value::Object(props)
+                };
+                let value = match nest {
+                    0 => value,
+                    1 => Amf0Value::StrictArray(vec![Amf0Value::Number(0.0), value]),
+                    2 => wrap_obj(value),
+                    3 => wrap_obj(Amf0Value::StrictArray(vec![value])),
+                    _ => Amf0Value::StrictArray(vec![wrap_obj(value), Amf0Value::Null]),
+                };
+                if nest != 0 {
+                    ctx.probe("a.nested_amf0_limit_value");
+                }
                 let message = if as_command {
                     RtmpMessage::Amf0Command { command_name: "cmd".to_string(), transaction_id: 1.0, command_object: Amf0Value::Null, additional_arguments: vec![value] }
                 } else {
